@@ -17,6 +17,10 @@ CONSTANTS
   Gater = "throttling"
   MixMode = "all"
   ScoreFree = {p1}
+  D = 4
+  Dlo = 2
+  Dhi = 5
+  Dscore = 2
   Bug = "graylistLE"
 INVARIANT TypeOK
 INVARIANT Inv_Graylist
